@@ -143,3 +143,18 @@ Example clone_instance :
   | _ => False
   end.
 Proof. vm_compute. split; reflexivity. Qed.
+
+(** the comparison of default texts in the check (Intro/IntrospectCheck.v [default_agrees]) is
+    modulo object field order also when a string has a character above U+FFFF (U+10000 = F0 90
+    80 80), and still tells two such characters (and a private-use look-alike) apart *)
+From ApiFu Require Intro.IntrospectCheck.
+Definition astral_text (fields_swapped : bool) (last : N) : bytes :=
+  let a := (nm "a: " ++ [34; 240; 144; 128; last; 34])%list in
+  let b := nm "b: 1" in
+  (if fields_swapped then nm "{" ++ b ++ nm ", " ++ a ++ nm "}" else nm "{" ++ a ++ nm ", " ++ b ++ nm "}")%list.
+Example astral_texts_compared_modulo_field_order :
+  IntrospectCheck.default_agrees (Some (astral_text false 128)) (DText (astral_text true 128)) = true /\
+  IntrospectCheck.default_agrees (Some (astral_text false 128)) (DText (astral_text true 129)) = false /\
+  IntrospectCheck.default_agrees (Some (nm "{a: " ++ [34; 240; 144; 128; 128; 34; 125])%list)
+                                 (DText (nm "{a: " ++ [34] ++ IntrospectCheck.pu 0 ++ IntrospectCheck.pu 48 ++ IntrospectCheck.pu 32 ++ IntrospectCheck.pu 32 ++ [34; 125])%list) = false.
+Proof. vm_compute. repeat split. Qed.
